@@ -242,20 +242,23 @@ def r20cd(prog, rep, cache_adt, iter_adt):
         # R20e: the queue of pages to yield is the whole requested group; the iterator ends only when the groups are exhausted
         # or a load failed
         qstores = []
-        for i, b in f.blocks.items():
-            for st in b['stmts']:
-                if any(re.search(r'VecDeque<u32', prog.field_type(of, fl) or '') for (of, fl) in mir.place_fields(st['dst'])[-1:]):
-                    qstores.append((i, st, [o for o in st['r'].get('ops', []) if is_place(o)], f.where(st)))
-            t = b['term']
-            if t and t['t'] == 'call' and any(re.search(r'VecDeque<u32', prog.field_type(of, fl) or '') for (of, fl) in mir.place_fields(t['dst'])[-1:]):
-                qstores.append((i, t, [a for a in t['args'] if is_place(a)], f.where(t)))
+        # the refill may sit in a helper method of the iterator that `next` calls
+        fgroup = [f] + [g for g in prog.callees_closure([f]).values() if g is not f and g.file == f.file and g.kind in ('Fn', 'AssocFn')]
+        for g in fgroup:
+            for i, b in g.blocks.items():
+                for st in b['stmts']:
+                    if any(re.search(r'VecDeque<u32', prog.field_type(of, fl) or '') for (of, fl) in mir.place_fields(st['dst'])[-1:]):
+                        qstores.append((g, st, [o for o in st['r'].get('ops', []) if is_place(o)], g.where(st)))
+                t = b['term']
+                if t and t['t'] == 'call' and any(re.search(r'VecDeque<u32', prog.field_type(of, fl) or '') for (of, fl) in mir.place_fields(t['dst'])[-1:]):
+                    qstores.append((g, t, [a for a in t['args'] if is_place(a)], g.where(t)))
         if not qstores:
             rep.violation('R20e', 'anchor-lost:queue-store', fn=f.name, detail='anchor lost: the iterator no longer refills its queue of page numbers')
-        for n, (bb, node, ops, where) in enumerate(qstores, 1):
+        for n, (g, node, ops, where) in enumerate(qstores, 1):
             ch = []
             from_groups = False
             for o in ops:
-                org = mir.provenance(f, o, follow_all_call_args=True)
+                org = mir.provenance(g, o, follow_all_call_args=True)
                 ch += [x for x in org.calls if x.short in LENCHG and x.decl.startswith('std::')]
                 from_groups = from_groups or any(re.search(r'Vec<std::vec::Vec<u32', prog.field_type(of, fl) or '') for (of, fl) in org.fields)
             k2 = '%s|queue-is-the-whole-group#%d' % (f.name, n)
